@@ -167,6 +167,8 @@ def run(out: Outcome, drv):
         while len(pairs) < n and tries < 5 * n:
             tries += 1
             base = gen.GENERATORS[fn](rng, 12 if out.tier == "quick" else 25)
+            if base.get("decimal_f32"):
+                continue        # shrinking a decimal bound by a lattice step is not exact in float64
             strict = strictify(rng, base)
             if strict is None or not std_margin_ok(strict) or not std_margin_ok(base):
                 continue
